@@ -1,4 +1,4 @@
-(* C17: facts about the translated kernel K43 (get_type_name_identifier / is_local_type_name and the table of
+(* C17: facts about the translated kernel K44 (get_type_name_identifier / is_local_type_name and the table of
    type reference sites of the generator), re-checked against the source on every run.
 
    A type reference that is pasted into generated code as code has to be a NAME CHAIN  NAME ('.' NAME)*  :
@@ -6,7 +6,7 @@
    whether the chain resolves and which object it denotes.  [chain] is that lexical shape over code points
    (word characters / digits = the tables of K42, i.e. of Python's re module).  *)
 From Coq Require Import List NArith Bool String Lia.
-From VerifGen Require Import K42 K43.
+From VerifGen Require Import K42 K44.
 From Verif Require Import K42Proofs.
 Import ListNotations.
 Open Scope N_scope.
